@@ -1,5 +1,6 @@
 import WM.Lemmas.FaithfulTree
 import WM.Lemmas.AllIds
+import WM.Lemmas.AllIdsOver
 /-!
 # C11 — every matcher is a faithful forward cursor over its result list
 
@@ -7,7 +8,7 @@ import WM.Lemmas.AllIds
 of the matcher tree `m` of shape `s`; `WF s m` is the invariant of DESIGN Appendix E; `ops s` are
 the operations mirrored from whoosh.  All statements are for every shape (every tree of ListMatcher,
 W3 block leaf, Null, Union, DisjunctionMax, Intersection, AndNot, AndMaybe, Require, boost, Filter,
-Inverse, ConstantScore nodes), every state and every argument.
+Inverse, ConstantScore, MultiMatcher and ArrayUnionMatcher nodes), every state and every argument.
 -/
 namespace WM.C11
 open WM.Matcher
@@ -101,6 +102,47 @@ theorem constructors_wf (a b : Any) (ha : WF a.1 a.2) (hb : WF b.1 b.2) :
     obtain ⟨m', h1, h2, h3, -⟩ := Inverse.init_spec FA a limit missing w i ha
     exact ⟨⟨.inverse sa, m'⟩, by simp [mkInverse, h1, bind, Except.bind]; rfl, h2, h3⟩
 
+/-- `MultiMatcher(matchers, idoffsets)` over well-formed sub-matchers of one class whose complete lists, each
+    shifted by its offset, ascend through the segments (and whose remaining lists are parts of the complete
+    ones - any state the sub-matchers were stepped to): well formed, and it means the concatenation of the
+    shifted remaining lists (Layer S `shift`, `++`). -/
+theorem multi_constructor_wf (c : Shape) (segs : List (St c × Nat)) (hw : ∀ s ∈ segs, WF c s.1)
+    (hsub : ∀ s ∈ segs, IdSub (den c s.1) (full c s.1)) (hasc : Asc (Multi.denOf (full c) segs)) :
+    WF (.multi c) (mkMulti c segs).2 ∧ (mkMulti c segs).den = Multi.denOf (den c) segs := by
+  obtain ⟨g1, g2, -, g4, -, -⟩ := Multi.nextMatcher_spec (tree_faithful c) (m := ⟨segs, 0⟩) hw
+  refine ⟨?_, ?_⟩
+  · show Multi.WF (ops c) (den c) (full c) (WF c) (Multi.nextMatcher (ops c) ⟨segs, 0⟩)
+    exact ⟨by rw [g4]; exact hw, by rw [g4]; exact hsub, by rw [g4]; exact hasc, g2⟩
+  · show Multi.den (den c) (Multi.nextMatcher (ops c) ⟨segs, 0⟩) = _
+    rw [g1]; rfl
+
+/-- `ArrayUnionMatcher(submatchers, doccount, boost, partsize)` over well-formed sub-matchers of one class with
+    positive scores (the class tells documents from empty buffer cells by `a[i] > 0`), a positive boost and a
+    positive part size: never raises, is well formed and means the boosted union of the sub-matchers' lists
+    below `doccount` (Layer S `sumDens`, `scale`, `below`). -/
+theorem aunion_constructor_wf (c : Shape) (subs : List (St c)) (dc : Nat) (boost : Rat) (ps : Nat)
+    (hw : ∀ s ∈ subs, WF c s) (hb : 0 < boost) (hps : 0 < ps)
+    (hdp : ∀ s ∈ subs, ∀ p ∈ den c s, 0 < p.2) (hfp : ∀ s ∈ subs, ∀ p ∈ full c s, 0 < p.2) :
+    ∃ m, mkAUnion c subs dc boost ps = .ok m ∧ WF m.1 m.2 ∧
+      m.den = below dc (sumDens (subs.map fun s => scale boost (den c s))) := by
+  have FA := tree_faithful c
+  obtain ⟨x, x1, x2, x3⟩ := AUnion.minId_spec FA subs dc hw
+  have hne : (ps == 0) = false := by simp; omega
+  obtain ⟨m', r1, r2, r3, r4, r5, -, -, r8, -, r10⟩ :=
+    AUnion.readPart_spec FA (⟨subs, dc, boost, ps, List.replicate ps 0, x, 0, 0⟩ : AUnion (St c)) hps hb hw hdp hfp x2
+  refine ⟨⟨.aunion c, m'⟩, ?_, ?_, r8⟩
+  · simp only [mkAUnion, AUnion.init, hne, x1, bind, Except.bind]
+    simp only [Bool.false_eq_true, ↓reduceIte, r1]
+    rfl
+  · show AUnion.WF (den c) (full c) (WF c) m'
+    refine ⟨r2, ?_⟩
+    intro hl
+    rw [r3, r5] at hl
+    rcases x3 with hx | ⟨hx, -⟩
+    · have := r10 hx hl
+      rw [r3, r4]; exact this
+    · exact absurd hl (by show ¬ x < dc; omega)
+
 /-! ## `replace()` without a threshold, `all_ids()` -/
 
 /-- `replace()` with no quality threshold never raises, returns a well-formed tree (possibly of another
@@ -112,10 +154,35 @@ theorem replace0 (s : Shape) (m : St s) (h : WF s m) :
   exact ⟨c, r, h1, h2.wf, h2.eq, h2.same⟩
 
 /-- the base-class `all_ids()` generator (step; `replace()` every tenth step) yields exactly the ids of
-    the remaining list, i.e. equals stepping.  (The overrides - `ListMatcher`, `IntersectionMatcher`,
-    `FilterMatcher`, `WrappingMatcher.all_ids` - are compared with stepping on the real code only.) -/
-theorem all_ids_partial (m : Any) (h : WF m.1 m.2) : allIds m = .ok (m.den.map (·.1)) :=
+    the remaining list, i.e. equals stepping - in every state of every tree -/
+theorem all_ids_base (m : Any) (h : WF m.1 m.2) : allIds m = .ok (m.den.map (·.1)) :=
   allIds_spec m h
+
+/-- `all_ids()` as each class defines it (`allIdsO`: the overrides of `ListMatcher`, `IntersectionMatcher`
+    (also behind `RequireMatcher`), `WrappingMatcher`/`ConstantScoreWrapperMatcher`, `FilterMatcher`,
+    `MultiMatcher`, `ArrayUnionMatcher`, `NullMatcher`; the base generator elsewhere) never raises and yields a strictly ascending
+    list that contains every id still to come and only ids of the complete list - in any state.  Hypothesis
+    `AllIdsPre`: at the sub-matchers whose `all_ids()` yields the remaining ids (the base generator,
+    `ArrayUnionMatcher`) the remaining list is part of the complete list; that is so in every state reached by cursor operations (`all_ids_pre_preserved`). -/
+theorem all_ids (s : Shape) (m : St s) (h : WF s m) (hp : AllIdsPre s m) :
+    ∃ L, allIdsO s m = .ok L ∧ L.Pairwise (· < ·) ∧ (∀ p ∈ den s m, p.1 ∈ L) ∧
+      (∀ x ∈ L, ∃ r, (x, r) ∈ full s m) := by
+  obtain ⟨L, h1, h2⟩ := allIdsO_spec s m h hp
+  exact ⟨L, h1, h2.asc, h2.lower, h2.upper⟩
+
+/-- … hence on a matcher at its start (nothing consumed: remaining list = complete list) every class's own
+    `all_ids()` equals stepping -/
+theorem all_ids_fresh (s : Shape) (m : St s) (h : WF s m) (hp : AllIdsPre s m) (hf : den s m = full s m) :
+    allIdsO s m = .ok ((den s m).map (·.1)) :=
+  allIdsO_fresh s m h hp hf
+
+/-- "the remaining list is part of the complete list" survives `next`, `skip_to` and `reset` (any shape) -/
+theorem all_ids_pre_preserved (s : Shape) (m : St s) (h : WF s m) (hs : IdSub (den s m) (full s m)) :
+    (∀ m', den s m ≠ [] → (ops s).next m = .ok m' → IdSub (den s m') (full s m')) ∧
+    (∀ t m', den s m ≠ [] → (ops s).skipTo m t = .ok m' → IdSub (den s m') (full s m')) ∧
+    (∀ m', (ops s).reset m = .ok m' → IdSub (den s m') (full s m')) :=
+  ⟨fun m' hne hn => idSub_next s m m' h hs hne hn, fun t m' hne hn => idSub_skipTo s m m' t h hs hne hn,
+    fun m' hn => idSub_reset s m m' h hn⟩
 
 /-! ## path independence -/
 
@@ -158,6 +225,47 @@ theorem program (s : Shape) (prog : List Cmd) (m : St s) (h : WF s m) (F L : Den
       obtain ⟨m', g1, g2⟩ := ih m1 h2 (by rw [h3, h4]; exact hs)
       exact ⟨m', by simp [run, Cmd.run, h1, g1, Except.bind], g2⟩
 
+/-- … the same with `replace()` (no threshold) anywhere in the program: the replacement may be a tree of another
+    shape, the list it stands on is still the one the list model predicts.  (`copy()` is the identity on model
+    values; `skip_to_quality`/`replace(q)` are not path-independent by design - their contract is C12
+    `skip_keeps`/`replace_keeps_partial`.) -/
+theorem program_replace (prog : List CmdR) (m : Any) (h : WF m.1 m.2) (L : Den)
+    (hs : runSpecR prog m.den = some L) : ∃ m', runR prog m = .ok m' ∧ WF m'.1 m'.2 ∧ m'.den = L := by
+  induction prog generalizing m with
+  | nil =>
+    simp only [runSpecR, Option.some.injEq] at hs
+    exact ⟨m, rfl, h, hs⟩
+  | cons c cs ih =>
+    obtain ⟨s, m⟩ := m
+    simp only [runSpecR] at hs
+    cases c with
+    | next =>
+      cases hd : den s m with
+      | nil => simp only [Any.den] at hs; rw [hd] at hs; simp [CmdR.spec] at hs
+      | cons p L' =>
+        obtain ⟨x, r⟩ := p
+        simp only [Any.den] at hs
+        rw [hd] at hs
+        simp only [CmdR.spec, Option.bind_some] at hs
+        obtain ⟨m1, h1, h2, h3, -, -⟩ := (tree_faithful s).next m x r L' h hd
+        obtain ⟨m', g1, g2⟩ := ih ⟨s, m1⟩ h2 (by show runSpecR cs (den s m1) = _; rw [h3]; exact hs)
+        exact ⟨m', by simp only [runR, CmdR.run, h1, bind, Except.bind]; exact g1, g2⟩
+    | skipTo t =>
+      cases hd : den s m with
+      | nil => simp only [Any.den] at hs; rw [hd] at hs; simp [CmdR.spec] at hs
+      | cons p L' =>
+        simp only [Any.den] at hs
+        rw [hd] at hs
+        simp only [CmdR.spec, Option.bind_some] at hs
+        obtain ⟨m1, h1, h2, h3, -, -, -⟩ := (tree_faithful s).skipTo m t h (by rw [hd]; simp)
+        obtain ⟨m', g1, g2⟩ := ih ⟨s, m1⟩ h2 (by show runSpecR cs (den s m1) = _; rw [h3, hd]; exact hs)
+        exact ⟨m', by simp only [runR, CmdR.run, h1, bind, Except.bind]; exact g1, g2⟩
+    | replace0 =>
+      simp only [CmdR.spec, Option.bind_some] at hs
+      obtain ⟨c, r, h1, h2, h3, -⟩ := replace0 s m h
+      obtain ⟨m', g1, g2⟩ := ih r h2 (by rw [h3]; exact hs)
+      exact ⟨m', by simp only [runR, CmdR.run, Any.replace, h1, bind, Except.bind]; exact g1, g2⟩
+
 /-! ## non-vacuity: a concrete well-formed tree on which every hypothesis above holds -/
 
 /-- `AndNot([5, 9], [3, 5])` - the example from DESIGN §6.3 on which the pinned tree leaks document 5 -/
@@ -172,5 +280,33 @@ example : WF .list (⟨[5, 9], [1, 1], 0, true⟩ : ListM) := by
 
 /-- the base `all_ids()` loop on that tree -/
 example : (exAndNot.bind allIds).toOption = some [9] := by decide +kernel
+
+/-- an `ArrayUnionMatcher` (part size 4, 40 documents) over two lists: stepping, `skip_to(9)`, `reset()` -/
+def exAUnion : R Any :=
+  mkAUnion .list [⟨[1, 5, 9], [1, 2, 3], 0, true⟩, ⟨[2, 5, 30], [1, 2, 3], 0, true⟩] 40 1 4
+
+example : denOf exAUnion = some ([(1, 1), (2, 1), (5, 4), (9, 3), (30, 3)], true) := by decide +kernel
+
+example : (exAUnion.bind fun m => (ops m.1).skipTo m.2 9 |>.map (den m.1)).toOption = some [(9, 3), (30, 3)] := by
+  decide +kernel
+
+/-- a `MultiMatcher` over two segments (offsets 0 and 30), inside an intersection -/
+def exMulti : R Any :=
+  mkInter (mkMulti .list [(⟨[5, 9], [1, 2], 0, true⟩, 0), (⟨[2, 7], [3, 1], 0, true⟩, 30)])
+    ⟨.list, ⟨[9, 32, 40], [1, 1, 1], 0, true⟩⟩
+
+example : denOf exMulti = some ([(9, 3), (32, 4)], true) := by decide +kernel
+
+/-- a program on that composite: `next`, `reset`, `skip_to(10)`, `replace()` ends on the list the model predicts -/
+example : (exMulti.bind (runR [.next, .skipTo 10, .replace0])).toOption.map (·.den) = some [(32, 4)] ∧
+    runSpecR [.next, .skipTo 10, .replace0] [(9, 3), (32, 4)] = some [(32, 4)] := by
+  constructor <;> decide +kernel
+
+example : (exMulti.bind fun m => (run m.1 [.next, .reset, .skipTo 10] m.2).map (den m.1)).toOption = some [(32, 4)] ∧
+    runSpec [.next, .reset, .skipTo 10] ([(9, 3), (32, 4)], [(9, 3), (32, 4)]) = some ([(9, 3), (32, 4)], [(32, 4)]) := by
+  constructor <;> decide +kernel
+
+/-- `IntersectionMatcher.all_ids` over `MultiMatcher.all_ids` and `ListMatcher.all_ids` on it -/
+example : (exMulti.bind fun m => allIdsO m.1 m.2).toOption = some [9, 32] := by decide +kernel
 
 end WM.C11
